@@ -51,6 +51,16 @@ def z1_derived(F, S, names):
                     S.bad("Z1", "serde-handwritten", "%s:%s" % (name, tr), "%s for %s is not produced by #[derive(%s)]: a hand-written impl may drop or alter state" % (tr, name, tr), loc(i["span"]))
 
 
+def apply_rename_all(field, rule):
+    """serde's RenameRule::apply_to_field"""
+    if not rule:
+        return field
+    words = [w for w in field.split("_")]
+    pascal = "".join(w[:1].upper() + w[1:] for w in words)
+    return {"lowercase": field, "snake_case": field, "UPPERCASE": field.upper(), "SCREAMING_SNAKE_CASE": field.upper(), "PascalCase": pascal,
+            "camelCase": pascal[:1].lower() + pascal[1:], "kebab-case": field.replace("_", "-"), "SCREAMING-KEBAB-CASE": field.upper().replace("_", "-")}.get(rule, field)
+
+
 def z2_attrs(F, S, names):
     by_name = {}
     for s in F.ast["structs"]:
@@ -60,19 +70,25 @@ def z2_attrs(F, S, names):
         if s is None:
             S.bad("Z2", "ast-missing", name, "struct %s not found in the expanded AST" % name)
             continue
+        rename_all = None
         for a in s["attrs"]:
             items = serde_attr_items(a)
             if items is None:
                 continue
             for it in items:
-                if HARMLESS_SERDE_ATTR.match(it):
+                m_ra = re.match(r'^rename_all\s*=\s*"([^"]*)"$', it.strip())
+                if m_ra:
+                    rename_all = m_ra.group(1)
+                if HARMLESS_SERDE_ATTR.match(it) and not re.match(r"^(rename|rename_all|rename_all_fields)\s*\(", it.strip()):
                     S.ok("Z2", "%s #[serde(%s)]" % (name, it))
+                elif HARMLESS_SERDE_ATTR.match(it):
+                    S.bad("Z2", "serde-attr", "%s:%s" % (name, it.split("(")[0].strip()), "container attribute #[serde(%s)] on %s gives separate serialize / deserialize names: the type cannot read back its own output in a self-describing format" % (it, name), loc(s["span"]))
                 else:
                     S.bad("Z2", "serde-attr", "%s:%s" % (name, it.split("=")[0].strip()), "container attribute #[serde(%s)] on %s can change what is serialized/restored" % (it, name), loc(s["span"]))
         wire_names = {}
         for f in s.get("fields", []):
             # the name a field has on the wire: `rename = "x"` only in its symmetric form, and no two fields may share a name
-            wn = f["name"]
+            wn = apply_rename_all(f["name"], rename_all)
             for a in f["attrs"]:
                 for it in (serde_attr_items(a) or []):
                     m_ = re.match(r'^rename\s*=\s*"([^"]*)"$', it.strip())
